@@ -415,3 +415,34 @@ def early_exit_leaves_focus(t0: str, t1: str, t2: str, t3: str, ci: int, p: int,
             if L(T3[key].evaluate(ctx)) != want or (ctx.item, ctx.axis, ctx.position, ctx.size) != before:
                 return False
     return True
+
+
+T3.update(parse_all({'abs_seq': '(count(/*), local-name(), count(//a), local-name(), /* is ., local-name())',
+                     'abs_cmp': '(. is /*, /* is ., (//*)[1] is ., local-name())', 'abs_pred': 'count(//*[count(//a) = count(//a)])'}))
+
+
+@ob(budget=200, bound='4-element tree r(x(z), y), every tag in {a,b}; context item = each of the 4 elements (chosen by the solver): absolute paths '
+                      '(/x, //x, also inside predicates and on either side of is) leave the focus of the enclosing expression and of a reused '
+                      'context object where it was',
+    funcs=['elementpath/xpath1/_xpath1_operators.py:select__child_path/select__descendant_path (one operand)'])
+def absolute_paths_keep_focus(t0: str, t1: str, t2: str, t3: str, ci: int) -> bool:
+    """
+    pre: all(len(t) == 1 and 'a' <= t <= 'b' for t in (t0, t1, t2, t3)) and 0 <= ci <= 3
+    post: _
+    """
+    n = _tree(t0, t1, t2, t3, False)
+    doc = ET.ElementTree(n[0])
+    tags = [t0, t1, t2, t3]
+    ci = [j for j in range(4) if j == ci][0]
+    here = tags[ci]
+    na = len([t for t in tags if t == 'a'])
+    ctx = XPathContext(doc, item=n[ci])
+    before = (ctx.item, ctx.axis, ctx.position, ctx.size)
+    for _ in range(2):
+        if L(T3['abs_seq'].evaluate(ctx)) != [1, here, na, here, ci == 0, here]:
+            return False
+        if L(T3['abs_cmp'].evaluate(ctx)) != [ci == 0, ci == 0, ci == 0, here] or L(T3['abs_pred'].evaluate(ctx)) != [4]:
+            return False
+        if (ctx.item, ctx.axis, ctx.position, ctx.size) != before:
+            return False
+    return True
